@@ -11,6 +11,9 @@ Stages (after build + audit of coq/Properties/C05.v):
        (b) accept  Cls().from_json(MessageToJson(ref(a))) denotes a   (3 printer variants)
        (c) canon   m.to_json() has the canonical FORM the reference prints (key names, string-vs-number, names-vs-numbers,
                    base64 alphabet, Timestamp / Duration grammar) - what the reference parser is lenient about
+  T4   the vocabulary of the message-level theorems C05_emit / C05_accept (coq/Proofs/C05MsgDef.v, C05AccDef.v) on what is
+       generated here: wf_schema / js_matches / keys_ok hold on every generated schema pair, abs_obj = the oracle's abstraction
+       abs_bp on every generated object, emit_good / wf_aval hold exactly outside the known classes.
 Failing inputs are shrunk (fields, container elements, nesting) and labelled by the features of the minimal input.
 """
 import base64
@@ -36,6 +39,7 @@ CLS_MAPK_ACC = "map-key-accept"
 CLS_WRAP_ACC = "wrapper-accept"
 CLS_OPT_DEFAULT = "optional-default-message-emit"
 CLS_NEGZERO = "neg-zero-implicit-float"
+CLS_PLAIN_ZERO_TIME = "plain-zero-time"
 
 TRUSTED = [
     "Coq 8.16.1 kernel and vm_compute (no native_compute); full .vo build via coq_makefile",
@@ -500,6 +504,26 @@ def run(ctx):
             ctx.count("corpus_cases")
             examine(ctx, env0, ci, a, m, f"corpus:{entry['id']}")
 
+    # ---------------------------------------------------------------- 1b. K33 witness: a PRESENT epoch / zero span in a plain field
+    # (the abstract message of this check takes such a field for absent - the convention of bytes(m) - so the main stream cannot
+    #  see it; the witness of C05_accept_plain_zero_time_refuted is replayed against the reference here)
+    try:
+        ci = [c.name for c in matrix.classes].index("KPlain")
+        for f in matrix.classes[ci].fields:
+            if f.card == "plain" and f.group is None and f.elem.kind in ("datetime", "timedelta"):
+                key = C.camel_case(f.name)
+                text = json.dumps({key: "1970-01-01T00:00:00Z" if f.elem.kind == "datetime" else "0s"})
+                r = rs_matrix.parse(ci, text)
+                ref_bytes = r.SerializeToString()
+                m2 = matrix.classes[ci].py().from_json(text)
+                ctx.count("k33_witness_replayed")
+                if bytes(m2) != ref_bytes:
+                    ctx.fail("oracle", f"the reference reads {text} as a message in which the field is present ({ref_bytes.hex()}), "
+                             f"betterproto reads it as the empty message ({bytes(m2).hex() or 'no bytes'}, to_json {m2.to_json()})",
+                             cls=CLS_PLAIN_ZERO_TIME, input={"class": "KPlain", "field": f.name, "json": text})
+    except Exception as e:  # noqa
+        ctx.fail("oracle", f"K33 witness could not be replayed: {e!r}", cls=None, input={"witness": "K33"})
+
     # ---------------------------------------------------------------- 2. messages: matrix schema + random schemas
     schemas = [(matrix, rs_matrix)]
     for _ in range(6 if not ctx.thorough else 40):
@@ -520,6 +544,15 @@ def run(ctx):
             ci = rng.randrange(len(s.classes))
             try:
                 m = msggen.gen_message(s, ci, rng, in_range=True)
+                try:
+                    lit = msggen.obj_literal(s, m)      # BEFORE any observer: to_json materialises lazy defaults
+                    if not float32_clean(s, ci, m):
+                        # a `float` field holding a double that is not a binary32 value: outside in_range (the oracle
+                        # compares such fields after rounding to binary32, the theorems are about exact values)
+                        lit = None
+                        ctx.count("t4_object_outside_in_range:float32")
+                except Exception:  # noqa: not expressible as a model literal (e.g. a lone surrogate)
+                    lit = None
                 a = R.abs_bp(s, ci, m)
             except Exception as e:  # noqa: constructing the value failed - not this property's business
                 ctx.count("construct_error:" + type(e).__name__)
@@ -547,7 +580,7 @@ def run(ctx):
                 ctx.sample({"class": s.classes[ci].name, "betterproto_json": safe(lambda: m.to_json())[:300],
                             "reference_json": safe(lambda: rs.to_json(ci, rs.build(ci, a)))[:300]})
             if ctx.thorough or (it % 4 == 0 if si == 0 else it < 25):
-                t3_cases.append((si, ci, a))
+                t3_cases.append((si, ci, a, lit))
 
     # ---------------------------------------------------------------- 3. key mapping: one-field classes per proto field name
     names = gen_names(ctx)
@@ -556,6 +589,7 @@ def run(ctx):
     # ---------------------------------------------------------------- 4. T3 / T2 inside Coq
     if ctx.build_ok:
         run_coq(ctx, R, C, schemas, t3_cases, names)
+        run_t4(ctx, schemas, t3_cases)
     for s, _ in schemas:
         s.dispose()
 
@@ -612,7 +646,6 @@ def has_presence(f):
 def coq_jschema(s, rs):
     cls = []
     for ci, c in enumerate(s.classes):
-        used = sorted({f.group for f in c.fields if f.group is not None})
         fl = []
         for f in c.fields:
             pname = rs.pname(ci, f)
@@ -629,7 +662,10 @@ def coq_jschema(s, rs):
                 kind = "JTimestamp" if f.elem.kind == "datetime" else "JDuration"
             card = ("Repeated" if f.card == "repeated" else f"(MapOf {SK[f.key.pt]})" if f.card == "map"
                     else "Explicit" if has_presence(f) else "Implicit")
-            grp = "None" if f.group is None else f"(Some {used.index(f.group)}%nat)"
+            # the id of the real oneof: json_accepts only compares ids for equality, so any injective numbering denotes the
+            # same descriptor; the runtime schema's group index is used so that js_matches (Proofs/C05MsgDef.v) can ask
+            # for jf_oneof = fgroup literally
+            grp = "None" if f.group is None else f"(Some {f.group}%nat)"
             fl.append(f"(mkJF {qs(pname)} {qs(jname)} {kind} {card} {grp})")
         cls.append("[" + ";\n    ".join(fl) + "]")
     en = ["[" + "; ".join(f"({qs(n)}, ({v})%Z)" for n, v in members) + "]" for members in s.enums]
@@ -901,7 +937,7 @@ def run_coq(ctx, R, C, schemas, t3_cases, names):
         a = env.rs.abs(ci, r)
         return cv_aval(env.s, a), a
 
-    for si, ci, a in t3_cases:
+    for si, ci, a, _lit in t3_cases:
         s, rs = schemas[si]
         env = Env(s, rs, R)
         r = rs.build(ci, a)
@@ -987,6 +1023,140 @@ def run_coq(ctx, R, C, schemas, t3_cases, names):
                  theorem_or_correspondence=("T2 Model/Casing.v" if is_t2 else "T3 Spec/JsonMap.v <-> google.protobuf.json_format"))
 
 
+
+# ==========================================================================================
+# T4: the definitions the message-level theorems C05_emit / C05_accept are stated with, on what the harness generates
+#     (coq/Proofs/C05MsgDef.v js_matches / abs_obj / emit_good, coq/Proofs/C05AccDef.v wf_aval):
+#       - every generated schema pair (runtime schema sc, descriptor-pool schema js) satisfies the schema hypotheses
+#         wf_schema, js_matches, keys_ok CAMEL;
+#       - abs_obj (the theorems' abstraction of a betterproto object) is the harness's abs_bp on every generated object;
+#       - the value hypotheses emit_good / wf_aval hold exactly when the input is outside the known classes (K13, a Duration
+#         a fraction of a second beyond the +-315 576 000 000 s of WellFormed.in_range, and for wf_aval a present epoch /
+#         zero span in a plain Timestamp / Duration field).
+#     So the theorems are not vacuous on the generated population and their vocabulary is the oracle's.
+# ==========================================================================================
+T4_IMPORTS = ("Model.Types Model.Object Model.WellFormed Spec.JsonMap Proofs.C04Def Proofs.C05Model Proofs.C05MsgDef "
+              "Proofs.C05AccDef")
+
+
+def walk_fields(schema, a):
+    """(Field, value) of every field of an abstract message, at every depth"""
+    c = schema.classes[a[1]]
+    for f, v in zip(c.fields, a[2]):
+        yield f, v
+        if f.elem.kind == "msg" and f.card != "wrapper" and v is not None:
+            subs = v if f.card == "repeated" else [x for _, x in v["map"]] if f.card == "map" else [v]
+            for sub in subs:
+                yield from walk_fields(schema, sub)
+
+
+def float32_clean(schema, ci, m):
+    """every `float` (binary32) field of the real object, at every depth, holds a binary32 value (or nan / inf)"""
+    import betterproto as bp
+    for f in schema.classes[ci].fields:
+        raw = object.__getattribute__(m, f.name)
+        if raw is bp.PLACEHOLDER or raw is None:
+            continue
+        vals = list(raw) if f.card == "repeated" else list(raw.values()) if f.card == "map" else [raw]
+        for x in vals:
+            if f.elem.kind == "msg" and f.card != "wrapper":
+                if isinstance(x, bp.Message) and not float32_clean(schema, f.elem.ref, x):
+                    return False
+            elif f.elem.kind == "scalar" and f.elem.pt == "float" and isinstance(x, float):
+                if x == x and x not in (float("inf"), float("-inf")):
+                    try:
+                        if struct.unpack("<f", struct.pack("<f", x))[0] != x:
+                            return False
+                    except OverflowError:
+                        return False
+    return True
+
+
+def k13_anywhere(schema, a):
+    return any(f.card == "plain" and f.group is None and f.elem.kind == "scalar" and f.elem.pt in ("float", "double")
+               and v == ("f", 1 << 63) for f, v in walk_fields(schema, a))
+
+
+def plain_zero_time_anywhere(schema, a):
+    return any(f.card == "plain" and f.group is None and v in (("ts", 0, 0), ("du", 0, 0)) for f, v in walk_fields(schema, a))
+
+
+def dur_beyond_model_range(schema, a):
+    """a Duration whose span exceeds +-315 576 000 000 s by a fraction of a second: legal for the reference (seconds at the
+    bound, nanos != 0) but outside WellFormed.in_range (the bound there is on the whole span, in microseconds)"""
+    def us(v):
+        return v[1] * 10**6 + (abs(v[2]) // 1000) * (1 if v[2] >= 0 else -1)
+    lim = 315576000000 * 10**6
+    for f, v in walk_fields(schema, a):
+        if f.elem.kind != "timedelta" or v is None:
+            continue
+        vals = v if f.card == "repeated" else [x for _, x in v["map"]] if f.card == "map" else [v]
+        if any(abs(us(x)) > lim for x in vals):
+            return True
+    return False
+
+
+def nan_payload(lit):
+    """the object literal holds a NaN other than float("nan") (JSON has the one token "NaN": C04's cls nan-payload)"""
+    for mt in re.finditer(r"PFloat \((\d+)\)", lit):
+        b = int(mt.group(1))
+        if (b >> 52) & 2047 == 2047 and b & ((1 << 52) - 1) and b != NAN_BITS:
+            return True
+    return False
+
+
+def multi_entry_map(schema, a):
+    return any(f.card == "map" and len(v["map"]) > 1 for f, v in walk_fields(schema, a))
+
+
+def run_t4(ctx, schemas, t3_cases):
+    prelude = "\n".join(f"Definition sc{i} : schema := {s.coq()}.\nDefinition js{i} : jschema := {coq_jschema(s, rs)}."
+                        for i, (s, rs) in enumerate(schemas))
+    pairs, meta = [], []
+    yes = lib.cbool(True)
+    for si, (s, rs) in enumerate(schemas):
+        if not s.classes:
+            continue
+        pairs.append((f"CL [cbool (wf_schema sc{si}); cbool (js_matches {msggen.NBUILTIN}%nat sc{si} js{si}); "
+                      f"cbool (keys_ok J.CAMEL sc{si})]", cl([yes, yes, yes])))
+        meta.append(("schema hypotheses of C05_emit / C05_accept (wf_schema, js_matches, keys_ok)", {"schema": si, "classes": s.describe()}))
+    for k, (si, ci, a, lit) in enumerate(t3_cases):
+        if ctx.thorough and k % 6:
+            continue                       # thorough tier: every sixth case is plenty for the definitions
+        s, rs = schemas[si]
+        k13 = k13_anywhere(s, a) or dur_beyond_model_range(s, a)
+        detail = {"schema": si, "class": s.classes[ci].name, "abstract": repr(a)[:1500]}
+        try:
+            alit = coq_aval(s, a)
+        except Exception:  # noqa: lone surrogates have no UTF-8 literal
+            ctx.count("t4_skipped_unprintable")
+            continue
+        pairs.append((f"cbool (wf_aval sc{si} js{si} {msggen.NBUILTIN}%nat (JMsg {ci}%nat) {alit})",
+                      lib.cbool(not k13 and not plain_zero_time_anywhere(s, a))))
+        meta.append(("wf_aval (hypothesis of C05_accept) holds exactly outside K13 / plain-zero-time", detail))
+        if lit is None:
+            continue
+        pairs.append((f"cbool (emit_good sc{si} {lit})", lib.cbool(not k13 and not nan_payload(lit))))
+        meta.append(("emit_good (hypothesis of C05_emit) holds exactly outside K13 / NaN payloads", detail))
+        if not multi_entry_map(s, a):      # abs_obj keeps dict order, the harness sorts entries
+            pairs.append((f"cv_of_aval (abs_obj sc{si} {lit})", cv_aval(s, a)))
+            meta.append(("abs_obj (Proofs/C05MsgDef.v) vs the harness's abstraction abs_bp", detail))
+    ctx.cov["evaluations"] += len(pairs)
+    try:
+        bad = lib.coq_compare(ctx, "c05t4", T4_IMPORTS, pairs, chunk=60, prelude=prelude)
+    except RuntimeError as e:
+        ctx.fail("corr", "the definitions of the message-level theorems could not be evaluated inside Coq", no_input=True,
+                 observed=str(e)[-1500:], theorem_or_correspondence="T4 Proofs/C05MsgDef.v / C05AccDef.v")
+        return
+    ctx.cov["disagreements_checked"] += len(pairs)
+    ctx.count("t4_cases", len(pairs))
+    for i in bad[:12]:
+        what, detail = meta[i]
+        ctx.fail("corr", f"T4: {what}: the Coq definition and the harness disagree", input=detail,
+                 expected=pairs[i][1][:2000], model_expression=pairs[i][0][:3000],
+                 theorem_or_correspondence="T4 Proofs/C05MsgDef.v / C05AccDef.v <-> harness/c05_reference.py")
+
+
 def eval_with_prelude(ctx, prelude, expr):
     path = os.path.join(ctx.work, f"c05eval_{abs(hash(expr)) % 10**9}.v")
     with open(path, "w") as f:
@@ -1021,9 +1191,10 @@ def finish(ctx):
     return lib.finish(
         ctx, "proof",
         "Coq specification of the proto3 JSON mapping (json_spec / json_accepts / protoc json_name) tied to google.protobuf.json_format by "
-        "evaluation inside Coq (vm_compute) on generated messages; theorems relating betterproto's key casing (and, where available, the "
-        "to_dict/from_dict model of C04) to the specification; the property itself evaluated on the implementation against the reference "
-        "in both directions on every generated message",
+        "evaluation inside Coq (vm_compute) on generated messages; theorems relating betterproto's key casing and the to_dict/from_dict "
+        "model of C04 to the specification, at the leaves and at the message level (C05_emit, C05_accept: every message of every matched "
+        "schema), whose hypotheses and abstraction are evaluated on the generated schemas and objects (T4); the property itself evaluated "
+        "on the implementation against the reference in both directions on every generated message",
         ASSUMPTIONS, TRUSTED, RULE,
         extra_cov={"explanation": "theorems are unbounded (all names / all values of the spec); the ties sample schemas and values; "
                                   "the oracle against google.protobuf is what finds failing inputs"})
